@@ -7,6 +7,7 @@ gas satisfy the three Rankine–Hugoniot conditions (`EPV.Spec.StagnationShock`)
 The 2-unknown residuals (D eliminated) are in BBNohSimplified.lean.
 -/
 import EPV.Lemmas.C16ResDefs
+import EPV.Lemmas.Bridge.EosTac
 
 set_option linter.all false
 set_option maxHeartbeats 1000000
@@ -23,12 +24,8 @@ theorem energyS0_jump_defects (s : EOS) (ic : NohIC) (ρ x D : ℝ) (hic : ic.Ad
     ∧ (shockedState ρ x (s.e ρ x)).energyFlux D - (incomingState ic 0 (s.e ic.rho_0 ic.P_0) D).energyFlux D = -(ρ * D) * C16.EnergyS0.F s ic ρ x D 2
         - D * (s.e ic.rho_0 ic.P_0 + ic.u_0 ^ 2 / 2) * C16.EnergyS0.F s ic ρ x D 0 := by
   obtain ⟨hu, hr0, hP0, hm⟩ := hic
-  have k0 : ¬ (0 ≤ ic.u_0) := not_le.mpr hu
-  have k1 : ¬ (ic.rho_0 ≤ 0) := not_le.mpr hr0
-  have k2 : ¬ (ic.P_0 < 0) := not_lt.mpr hP0
-  have k3 : True := trivial
   refine ⟨?_, ?_, ?_⟩ <;>
-    (simp only [C16.EnergyS0.F, shockedState, incomingState, State.massFlux, State.momFlux, State.energyFlux, epv_c16, epv_tree, epv_cond, epv_leaf, hρ, k0, k1, k2, k3, if_true, if_false, lt_self_iff_false, Matrix.of_apply, Matrix.cons_val, Fin.zero_eta, Fin.mk_one, Fin.reduceFinMk, Fin.isValue] <;> field_simp <;> ring)
+    (simp only [C16.EnergyS0.F, shockedState, incomingState, State.massFlux, State.momFlux, State.energyFlux]; epv_eos_res_eq)
 
 /-- `energy_noh_residual`, symmetry 0 (unknowns (ρ, P, D), shocked energy e(ρ, P)): the residual vanishes exactly when the shocked state at rest and the
 incoming gas (density ρ₀ (1 - u₀/D)^0 at the front) satisfy the three Rankine–Hugoniot conditions with front speed D -/
@@ -72,13 +69,9 @@ theorem energyS1_jump_defects (s : EOS) (ic : NohIC) (ρ x D : ℝ) (hic : ic.Ad
     ∧ (shockedState ρ x (s.e ρ x)).energyFlux D - (incomingState ic 1 (s.e ic.rho_0 ic.P_0) D).energyFlux D = -(ρ * D) * C16.EnergyS1.F s ic ρ x D 2
         - D * (s.e ic.rho_0 ic.P_0 + ic.u_0 ^ 2 / 2) * C16.EnergyS1.F s ic ρ x D 0 := by
   obtain ⟨hu, hr0, hP0, hm⟩ := hic
-  have k0 : ¬ (0 ≤ ic.u_0) := not_le.mpr hu
-  have k1 : ¬ (ic.rho_0 ≤ 0) := not_le.mpr hr0
-  have k2 : ¬ (ic.P_0 < 0) := not_lt.mpr hP0
   have hPz : ic.P_0 = 0 := hm (by norm_num)
-  have k3 := eq_true hPz
   refine ⟨?_, ?_, ?_⟩ <;>
-    (simp only [C16.EnergyS1.F, shockedState, incomingState, State.massFlux, State.momFlux, State.energyFlux, epv_c16, epv_tree, epv_cond, epv_leaf, hρ, k0, k1, k2, k3, if_true, if_false, lt_self_iff_false, Matrix.of_apply, Matrix.cons_val, Fin.zero_eta, Fin.mk_one, Fin.reduceFinMk, Fin.isValue] <;> field_simp <;> ring)
+    (simp only [C16.EnergyS1.F, shockedState, incomingState, State.massFlux, State.momFlux, State.energyFlux]; epv_eos_res_eq)
 
 /-- `energy_noh_residual`, symmetry 1 (unknowns (ρ, P, D), shocked energy e(ρ, P)): the residual vanishes exactly when the shocked state at rest and the
 incoming gas (density ρ₀ (1 - u₀/D)^1 at the front) satisfy the three Rankine–Hugoniot conditions with front speed D -/
@@ -122,13 +115,9 @@ theorem energyS2_jump_defects (s : EOS) (ic : NohIC) (ρ x D : ℝ) (hic : ic.Ad
     ∧ (shockedState ρ x (s.e ρ x)).energyFlux D - (incomingState ic 2 (s.e ic.rho_0 ic.P_0) D).energyFlux D = -(ρ * D) * C16.EnergyS2.F s ic ρ x D 2
         - D * (s.e ic.rho_0 ic.P_0 + ic.u_0 ^ 2 / 2) * C16.EnergyS2.F s ic ρ x D 0 := by
   obtain ⟨hu, hr0, hP0, hm⟩ := hic
-  have k0 : ¬ (0 ≤ ic.u_0) := not_le.mpr hu
-  have k1 : ¬ (ic.rho_0 ≤ 0) := not_le.mpr hr0
-  have k2 : ¬ (ic.P_0 < 0) := not_lt.mpr hP0
   have hPz : ic.P_0 = 0 := hm (by norm_num)
-  have k3 := eq_true hPz
   refine ⟨?_, ?_, ?_⟩ <;>
-    (simp only [C16.EnergyS2.F, shockedState, incomingState, State.massFlux, State.momFlux, State.energyFlux, epv_c16, epv_tree, epv_cond, epv_leaf, hρ, k0, k1, k2, k3, if_true, if_false, lt_self_iff_false, Matrix.of_apply, Matrix.cons_val, Fin.zero_eta, Fin.mk_one, Fin.reduceFinMk, Fin.isValue] <;> field_simp <;> ring)
+    (simp only [C16.EnergyS2.F, shockedState, incomingState, State.massFlux, State.momFlux, State.energyFlux]; epv_eos_res_eq)
 
 /-- `energy_noh_residual`, symmetry 2 (unknowns (ρ, P, D), shocked energy e(ρ, P)): the residual vanishes exactly when the shocked state at rest and the
 incoming gas (density ρ₀ (1 - u₀/D)^2 at the front) satisfy the three Rankine–Hugoniot conditions with front speed D -/
@@ -172,12 +161,8 @@ theorem pressureS0_jump_defects (s : EOS) (ic : NohIC) (ρ x D : ℝ) (hic : ic.
     ∧ (shockedState ρ (s.P ρ x) x).energyFlux D - (incomingState ic 0 (s.e ic.rho_0 ic.P_0) D).energyFlux D = -(ρ * D) * C16.PressureS0.F s ic ρ x D 2
         - D * (s.e ic.rho_0 ic.P_0 + ic.u_0 ^ 2 / 2) * C16.PressureS0.F s ic ρ x D 0 := by
   obtain ⟨hu, hr0, hP0, hm⟩ := hic
-  have k0 : ¬ (0 ≤ ic.u_0) := not_le.mpr hu
-  have k1 : ¬ (ic.rho_0 ≤ 0) := not_le.mpr hr0
-  have k2 : ¬ (ic.P_0 < 0) := not_lt.mpr hP0
-  have k3 : True := trivial
   refine ⟨?_, ?_, ?_⟩ <;>
-    (simp only [C16.PressureS0.F, shockedState, incomingState, State.massFlux, State.momFlux, State.energyFlux, epv_c16, epv_tree, epv_cond, epv_leaf, hρ, k0, k1, k2, k3, if_true, if_false, lt_self_iff_false, Matrix.of_apply, Matrix.cons_val, Fin.zero_eta, Fin.mk_one, Fin.reduceFinMk, Fin.isValue] <;> field_simp <;> ring)
+    (simp only [C16.PressureS0.F, shockedState, incomingState, State.massFlux, State.momFlux, State.energyFlux]; epv_eos_res_eq)
 
 /-- `pressure_noh_residual`, symmetry 0 (unknowns (ρ, e, D), shocked pressure P(ρ, e)): the residual vanishes exactly when the shocked state at rest and the
 incoming gas (density ρ₀ (1 - u₀/D)^0 at the front) satisfy the three Rankine–Hugoniot conditions with front speed D -/
@@ -221,13 +206,9 @@ theorem pressureS1_jump_defects (s : EOS) (ic : NohIC) (ρ x D : ℝ) (hic : ic.
     ∧ (shockedState ρ (s.P ρ x) x).energyFlux D - (incomingState ic 1 (s.e ic.rho_0 ic.P_0) D).energyFlux D = -(ρ * D) * C16.PressureS1.F s ic ρ x D 2
         - D * (s.e ic.rho_0 ic.P_0 + ic.u_0 ^ 2 / 2) * C16.PressureS1.F s ic ρ x D 0 := by
   obtain ⟨hu, hr0, hP0, hm⟩ := hic
-  have k0 : ¬ (0 ≤ ic.u_0) := not_le.mpr hu
-  have k1 : ¬ (ic.rho_0 ≤ 0) := not_le.mpr hr0
-  have k2 : ¬ (ic.P_0 < 0) := not_lt.mpr hP0
   have hPz : ic.P_0 = 0 := hm (by norm_num)
-  have k3 := eq_true hPz
   refine ⟨?_, ?_, ?_⟩ <;>
-    (simp only [C16.PressureS1.F, shockedState, incomingState, State.massFlux, State.momFlux, State.energyFlux, epv_c16, epv_tree, epv_cond, epv_leaf, hρ, k0, k1, k2, k3, if_true, if_false, lt_self_iff_false, Matrix.of_apply, Matrix.cons_val, Fin.zero_eta, Fin.mk_one, Fin.reduceFinMk, Fin.isValue] <;> field_simp <;> ring)
+    (simp only [C16.PressureS1.F, shockedState, incomingState, State.massFlux, State.momFlux, State.energyFlux]; epv_eos_res_eq)
 
 /-- `pressure_noh_residual`, symmetry 1 (unknowns (ρ, e, D), shocked pressure P(ρ, e)): the residual vanishes exactly when the shocked state at rest and the
 incoming gas (density ρ₀ (1 - u₀/D)^1 at the front) satisfy the three Rankine–Hugoniot conditions with front speed D -/
@@ -271,13 +252,9 @@ theorem pressureS2_jump_defects (s : EOS) (ic : NohIC) (ρ x D : ℝ) (hic : ic.
     ∧ (shockedState ρ (s.P ρ x) x).energyFlux D - (incomingState ic 2 (s.e ic.rho_0 ic.P_0) D).energyFlux D = -(ρ * D) * C16.PressureS2.F s ic ρ x D 2
         - D * (s.e ic.rho_0 ic.P_0 + ic.u_0 ^ 2 / 2) * C16.PressureS2.F s ic ρ x D 0 := by
   obtain ⟨hu, hr0, hP0, hm⟩ := hic
-  have k0 : ¬ (0 ≤ ic.u_0) := not_le.mpr hu
-  have k1 : ¬ (ic.rho_0 ≤ 0) := not_le.mpr hr0
-  have k2 : ¬ (ic.P_0 < 0) := not_lt.mpr hP0
   have hPz : ic.P_0 = 0 := hm (by norm_num)
-  have k3 := eq_true hPz
   refine ⟨?_, ?_, ?_⟩ <;>
-    (simp only [C16.PressureS2.F, shockedState, incomingState, State.massFlux, State.momFlux, State.energyFlux, epv_c16, epv_tree, epv_cond, epv_leaf, hρ, k0, k1, k2, k3, if_true, if_false, lt_self_iff_false, Matrix.of_apply, Matrix.cons_val, Fin.zero_eta, Fin.mk_one, Fin.reduceFinMk, Fin.isValue] <;> field_simp <;> ring)
+    (simp only [C16.PressureS2.F, shockedState, incomingState, State.massFlux, State.momFlux, State.energyFlux]; epv_eos_res_eq)
 
 /-- `pressure_noh_residual`, symmetry 2 (unknowns (ρ, e, D), shocked pressure P(ρ, e)): the residual vanishes exactly when the shocked state at rest and the
 incoming gas (density ρ₀ (1 - u₀/D)^2 at the front) satisfy the three Rankine–Hugoniot conditions with front speed D -/
